@@ -37,7 +37,8 @@ def tasks(tier, seed):
     base = fuzzspace.tasks(tier, seed)
     # truncations, short strings and header shapes again with debug logging on
     debug = [('debug-logging',) + t for t in base
-             if t[0] in ('truncate', 'short', 'shapes', 'nested-short')]
+             if t[0] in ('truncate', 'short', 'shapes', 'nested-short',
+                         'hostile-names')]
     # every representative frame and its payload truncations once more in a
     # process that raises warnings as errors (-W error): a frame a peer may
     # send (a deprecated method, say) must still not make anything but
@@ -84,7 +85,8 @@ def env_tasks(tier, seed):
     frames - with and without debug logging."""
     base = fuzzspace.tasks(tier, seed)
     pick = [t for t in base
-            if t[0] in ('truncate', 'short', 'shapes', 'nested-short') or
+            if t[0] in ('truncate', 'short', 'shapes', 'nested-short',
+                        'hostile-names') or
             (t[0] == 'rewrite' and len(t) == 3)]
     return pick + [('debug-logging',) + t for t in pick]
 
